@@ -199,12 +199,14 @@ CLAIMED = {
         technique='Coq finite theorems + cache state-machine proofs + exhaustive three-way load audit'),
     'C16': dict(
         text='Machine-checked proof (Coq), PARTIAL: for every rule, molecule and match - no edit sequence adds, removes or transmutes an atom (atoms '
-             'of every element are conserved), atoms that are not images of labelled atoms are untouched, one product graph per match. The executable '
+             'of every element are conserved), atoms that are not images of labelled atoms are untouched, one product graph per match; every rule that the '
+             'reader accepts has a zero electron balance on EVERY labelled atom w.r.t. an independent per-edit specification (so any rule leaving one '
+             'labelled atom unbalanced is rejected, even when imbalances cancel over the rule). The executable '
              'model (rule reader with doubled electron balance incl. the bond-type checks of break/modify, edit application per match) is compared '
              'with the implementation on every run: reading class of generated balanced / unbalanced / mislabelled rule texts and the complete '
              'product graph of every match (atom identity carried by atom-map numbers).',
         design='5 / C16',
-        note=TB + 'Closed under the global context. Unimolecular rules with one reactant fragment; balanced_iff_electrons_conserved (DESIGN) is decided by '
+        note=TB + 'Closed under the global context. Unimolecular rules with one reactant fragment; that the applied edit changes the matched atoms exactly as declared is decided by '
              'the correspondence, not a theorem; atom-type modification, groups, duplicates and constraints are unsupported constructs.',
         technique='Coq conservation/frame proofs over the edit semantics + vm_compute correspondence of rule reading and product graphs'),
     'C17': dict(
